@@ -90,13 +90,13 @@ func runGroundPkg(w *World, o *Options, pkg string, gs []*GroundOb, race bool) [
 	}
 	ovj, _ := json.Marshal(map[string]map[string]string{"Replace": repl})
 	os.WriteFile(ov, ovj, 0o644)
-	args := []string{"test", "-v", "-overlay", ov, "-vet=off", "-count=1", "-timeout", "300s", "-run", "^TestVerifGround$", "."}
+	args := []string{"test", "-v", "-overlay", ov, "-vet=off", "-count=1", "-timeout", groundTimeout(o), "-run", "^TestVerifGround$", "."}
 	if race {
 		args = append([]string{"test", "-race"}, args[1:]...)
 	}
 	cmd := exec.Command("go", args...)
 	cmd.Dir = pkgDir(w, pkg)
-	cmd.Env = append(os.Environ(), goEnv...)
+	cmd.Env = append(append(os.Environ(), goEnv...), "VERIF_TIER="+o.tier)
 	outb, _ := cmd.CombinedOutput()
 	text := string(outb)
 	ms := time.Since(start).Milliseconds()
@@ -107,6 +107,9 @@ func runGroundPkg(w *World, o *Options, pkg string, gs []*GroundOb, race bool) [
 		if g.Bound != "" {
 			ob.Name, ob.Kind, ob.Bounded = "bounded:"+g.Name, "bounded", true
 			ob.Backend = "go test (real code), bounded: " + g.Bound
+			if o.tier == "thorough" {
+				ob.Backend += " -- widened in the thorough tier as stated in /verif/harness (hThorough)"
+			}
 			ob.Text = g.Args[0] + "   [bound: " + g.Bound + "]"
 		}
 		switch {
@@ -169,4 +172,11 @@ func grepLines(text, prefix string) string {
 		out = out[:20]
 	}
 	return strings.Join(out, "\n")
+}
+
+func groundTimeout(o *Options) string {
+	if o.tier == "thorough" {
+		return "1500s"
+	}
+	return "300s"
 }
